@@ -350,23 +350,22 @@ func runProperty(prop, tier, only string, par int, hs []harness, pkgNames map[st
 		jobs = append(jobs, expand(h, tier)...)
 	}
 	results := make([]jobResult, len(jobs))
-	sem := make(chan struct{}, par)
+	eng.Tokens = make(chan struct{}, par)
 	var wg sync.WaitGroup
 	for k := range jobs {
 		wg.Add(1)
 		go func(k int) {
 			defer wg.Done()
-			sem <- struct{}{}
-			defer func() { <-sem }()
 			j := jobs[k]
 			tj := time.Now()
 			unwind, _ := strconv.Atoi(opt(j.h, tier, "unwind", "0"))
 			to, _ := strconv.Atoi(opt(j.h, tier, "timeout", "0"))
 			maxp, _ := strconv.Atoi(opt(j.h, tier, "maxpaths", "0"))
 			dl, _ := strconv.Atoi(opt(j.h, tier, "deadline", "0"))
+			split, _ := strconv.Atoi(opt(j.h, tier, "split", "0"))
 			cfg := symgo.HarnessCfg{Pkg: pkgPath(j.h), Func: j.h.Func, IntMode: opt(j.h, tier, "mode", "bv") == "int",
 				Solver: opt(j.h, tier, "solver", "z3"), Unwind: unwind, TimeoutMs: to, Params: j.params, Tier: tier,
-				MaxPaths: maxp, Deadline: time.Duration(dl) * time.Second, Label: j.label}
+				MaxPaths: maxp, Deadline: time.Duration(dl) * time.Second, Label: j.label, Split: split}
 			ex, err := eng.Run(cfg)
 			results[k] = jobResult{job: j, ex: ex, err: err, wall: time.Since(tj)}
 		}(k)
@@ -586,6 +585,7 @@ func writeEvidence(prop, tier string, seed int, results []jobResult, eng *symgo.
 			"harness": r.job.label, "options": r.job.h.Opts, "paths": r.ex.Paths, "infeasible_paths": r.ex.PathsInfeas,
 			"decisions": r.ex.Decisions, "obligations": r.ex.Obligations, "discharged": r.ex.Discharged,
 			"trivially_true": r.ex.Trivial, "findings": len(r.ex.Findings), "reached": reached, "wall_s": r.wall.Seconds(),
+			"if_conversions": r.ex.Merges, "workers": r.ex.Workers,
 		})
 	}
 	if len(samples) == 0 {
